@@ -185,6 +185,48 @@ def check_txt(case: Tuple[Tuple[Any, Any], ...]) -> Tuple[Optional[Dict[str, Any
     return None, f"txt:{len(case)}:{sum(1 for v in want.values() if v is None)}"
 
 
+UPDATE_DICTS: List[Tuple[Tuple[Any, Any], ...]] = [
+    (), (("a", "1"),), (("a", "2"),), ((b"a", b"1"),), (("a", None),), (("a", ""),), (("b", "x=y"), ("c", b"\x00z")),
+    (("a", "1"), ("b", None)), tuple((f"k{i}", "v") for i in range(5)),
+]
+UPDATE_READS = ("none", "properties", "decoded_properties", "both")
+
+
+def check_update(case: Tuple[int, int, str, str]) -> Tuple[Optional[Dict[str, Any]], str]:
+    """A description that has been read (its decoded views are cached) receives a TXT record with other bytes - what a
+    lookup object goes through when the service changes its TXT data: afterwards every view shows the new dictionary."""
+    from zeroconf import DNSText, ServiceInfo
+    from zeroconf._record_update import RecordUpdate
+
+    ia, ib, built, read = case
+    a, b = UPDATE_DICTS[ia], UPDATE_DICTS[ib]
+    text_b = ServiceInfo("_a._tcp.local.", "x._a._tcp.local.", 80, properties=dict(b)).text
+    want = nm.expected_txt(list(b))
+    try:
+        props_a: Any = dict(a) if built == "dict" else ServiceInfo("_a._tcp.local.", "x._a._tcp.local.", 80, properties=dict(a)).text
+        info = ServiceInfo("_a._tcp.local.", "x._a._tcp.local.", 80, properties=props_a)
+        if read in ("properties", "both"):
+            info.properties
+        if read in ("decoded_properties", "both"):
+            info.decoded_properties
+        rec = DNSText("x._a._tcp.local.", 16, 0x8001, 4500, text_b, created=1000.0)
+        info.async_update_records(None, 1000.0, [RecordUpdate(rec, None)])  # type: ignore[arg-type]
+        got = {k: (v or None) for k, v in info.properties.items()}
+        got_dec = {k.encode(): (v.encode() if v is not None else None) for k, v in info.decoded_properties.items()}
+        # (the record objects built for a *registered* description - dns_text() - are another matter: a registered object is no
+        # listener; only the dictionary views belong to this property)
+        views = {"text": info.text == text_b, "properties": got == want, "decoded_properties": got_dec == want}
+    except Exception as e:  # noqa: BLE001
+        return ({"what": f"C19 TXT update {case}: {type(e).__name__}: {e}", "replay": {"kind": "update"},
+                 "signature": {"check": "txt-update-exception"}}, "update:exception")
+    bad = [k for k, ok in views.items() if not ok]
+    if bad:
+        return ({"what": f"C19 TXT update {a!r} -> {b!r} (built from {built}, read before: {read}): after the new TXT record "
+                         f"arrived {bad} still show(s) the old data; properties={info.properties!r} text={info.text!r}",
+                 "replay": {"kind": "update"}, "signature": {"check": "txt-update"}}, "update:stale")
+    return None, "update:ok"
+
+
 THREAD_DICTS: List[Tuple[Tuple[Any, Any], ...]] = [
     (("a", "1"),), (("a", "1"), ("b", None), ("c", b"")), tuple((f"k{i}", f"v{i}") for i in range(12)),
 ]
@@ -273,6 +315,8 @@ def run(tier: str, seed: int) -> Tuple[Stats, str, List[str], Dict[str, Any]]:
     enumerate_inputs(check_name, short_strings(maxlen), stats, "names-short")
     enumerate_inputs(check_name, code_points(tier), stats, "names-code-points")
     enumerate_inputs(check_txt, txt_cases(tier), stats, "txt")
+    enumerate_inputs(check_update, iter([(i, j, built, read) for i in range(len(UPDATE_DICTS)) for j in range(len(UPDATE_DICTS))
+                                         for built in ("dict", "bytes") for read in UPDATE_READS if i != j]), stats, "txt-update")
     enumerate_inputs(check_threads, iter([(d, a, b) for d in range(len(THREAD_DICTS)) for a in THREAD_OPS for b in THREAD_OPS]),
                      stats, "txt-two-readers", chunk=1)
     stats.states = len(stats.outcomes)
@@ -298,7 +342,9 @@ def run(tier: str, seed: int) -> Tuple[Stats, str, List[str], Dict[str, Any]]:
 def replay(data: Dict[str, Any]) -> int:
     install_seams()
     x = data["input"]
-    if data.get("kind") == "threads":
+    if data.get("kind") == "update":
+        v, oc = check_update((int(x[0]), int(x[1]), x[2], x[3]))
+    elif data.get("kind") == "threads":
         v, oc = check_threads((int(x[0]), x[1], x[2]))
     elif data.get("kind") == "name":
         v, oc = check_name((x[0], x[1]))
